@@ -26,7 +26,7 @@ def r1(ctx, prog):
         raise AnalysisBroken("C01.R1: _mi_page_malloc_zero does not return the popped block")
     adv = [a for a, l, rhs, op in f.field_stores("free") if op == "=" and rhs is not None and rl.is_call(f, f.strip(rhs), "mi_block_next") and
            rl.var_of(f, f.nodes[f.strip(rhs)]["args"][1]) == b]
-    incs = [a for a, l, rhs, op in f.field_stores("used") if op in ("++",) or (op == "+=" and f.cv(rhs) == 1)]
+    incs = [a for a, l, kind, opnd in f.field_updates("used") if kind == "add" and opnd == 1]
     for r in rets:
         w = cfg.guarded(cfg.pt(r), lambda e, pol: isinstance(e, int) and rl.fact_nonnull(f, e, pol, rl.is_var(f, b)))
         ctx.check(R, w is None, f.where(r), "the popped block is returned only on its non-NULL edge", key="C01.R1:nonnull", witness=w)
@@ -48,7 +48,7 @@ def r2(ctx, prog):
     pg, blk = f.param_id(0), f.param_id(1)
     links = [c for c in f.calls("mi_block_set_next") if rl.var_of(f, rl.arg(f, c, 1)) == blk and rl.field_is(f, rl.arg(f, c, 2), "local_free")]
     heads = [a for a, l, rhs, op in f.field_stores("local_free") if op == "=" and rhs is not None and rl.var_of(f, rhs) == blk]
-    decs = [a for a, l, rhs, op in f.field_stores("used") if op == "--" or (op == "-=" and f.cv(rhs) == 1)]
+    decs = [a for a, l, kind, opnd in f.field_updates("used") if kind == "sub" and opnd == 1]
     ctx.check(R, len(links) == 1 and len(heads) == 1 and len(decs) == 1, f.where(), "one link, one head store, one decrement", key="C01.R2:shape")
     if links and heads and decs:
         def dbl(lab, p, q):
@@ -130,7 +130,7 @@ def r4(ctx, prog):
         for c in exts:
             k = [i for i, a in enumerate(f.nodes[c]["args"]) if rl.var_of(f, a) == ed]
             ctx.check(R, len(k) == 1, f.where(c), "the extender receives that same extend count", key="C01.R4:arg")
-        caps = [(a, rhs) for a, l, rhs, op in f.field_stores("capacity") if op == "+="]
+        caps = [(a, opnd) for a, l, kind, opnd in f.field_updates("capacity") if kind == "add" and opnd != 1]
         ok = len(caps) == 1 and rl.var_of(f, caps[0][1]) == ed
         ctx.check(R, ok, f.where(), "capacity += extend (the same value)", key="C01.R4:capacity")
         if caps:
@@ -258,8 +258,8 @@ def r7(ctx, prog):
     ctx.check(R, len(st) == 1 and rl.var_of(g, st[0][1]) == sc, g.where(), "the kept part records exactly slice_count slices", key="C01.R7:split:keep")
     h = prog.fn("mi_segment_span_free_coalesce")
     cfg = h.cfg
-    adds = [a for a, rhs, op in [(a, rhs, op) for d in [dd["d"] for _, dd in rl.local_decl(h, lambda dd: "init" in dd and rl.field_is(h, dd["init"], "slice_count"))]
-                                  for a, rhs, op in h.var_defs(d)] if op == "+="]
+    adds = [a for d in [dd["d"] for _, dd in rl.local_decl(h, lambda dd: "init" in dd and rl.field_is(h, dd["init"], "slice_count"))]
+            for a, kind, opnd in h.var_updates(d) if kind == "add"]
     ctx.check(R, len(adds) == 2, h.where(), "two merge sites (next neighbour, previous neighbour)", key="C01.R7:coalesce:sites")
     for a in adds:
         def nb_free(e, pol):
